@@ -218,6 +218,8 @@ func (v V) String() string {
 		return fmt.Sprintf("g%d:%s:%d", v.ID, hx(v.S), z)
 	case 'o':
 		return fmt.Sprintf("o%d:%d", v.Ty, v.ID)
+	case 'O':
+		return "O" + v.Op
 	case 'K':
 		var xs []string
 		for _, x := range v.Xs {
@@ -264,6 +266,8 @@ func parseV(toks []string) (V, []string) {
 		p := strings.SplitN(t[1:], ":", 3)
 		id, _ := strconv.Atoi(p[0])
 		return V{T: 'g', ID: id, S: unhx(p[1]), B: p[2] == "1"}, toks[1:]
+	case 'O':
+		return V{T: 'O', Op: t[1:]}, toks[1:]
 	case 'o':
 		p := strings.SplitN(t[1:], ":", 2)
 		cls, _ := strconv.Atoi(p[0])
@@ -554,6 +558,10 @@ func opqOf(cls, id int) any {
 		v = (*int)(nil)
 	case 6:
 		v = []int{id}
+	case 20: // C20: nil pointer to the native Stack type (satisfies stackage.Interface)
+		v = (*stackage.Stack)(nil)
+	case 21: // C20: nil pointer to the native Condition type
+		v = (*stackage.Condition)(nil)
 	default:
 		v = &Opq{Cls: cls, ID: id}
 	}
@@ -592,6 +600,8 @@ func Build(v V) any {
 		return Strg{ID: v.ID, S: v.S}
 	case 'o':
 		return opqOf(v.Ty, v.ID)
+	case 'O':
+		return opOf(v.Op)
 	case 'K':
 		return wrapStack(BuildStack(v), v.Form)
 	case 'C':
